@@ -42,18 +42,24 @@ func init() {
 //	                     compares with the error that V0 sent directly)
 type Config struct {
 	// Phase: "process" (one process's registrations, no transfer),
-	// "transfer" (sender -> intermediaries -> receiver) or "routes" (two
-	// senders -> one receiver that compares the two errors).
+	// "transfer" (sender -> intermediaries -> receiver), "routes" (two
+	// senders -> one receiver that compares the two errors) or "mark"
+	// (sender -> marking process -> receiver: the one intermediary takes
+	// errors.Mark(a new error, the error it received) and sends that on; the
+	// receiver compares it with its local instance).
 	Phase string `json:"phase"`
 	// Lineage: "" (the plain types) or "generic-int", "generic-named",
 	// "generic-pointer" (instantiated generic types, renamed once), or
 	// "proto-native" (a leaf type that is a protobuf message and has no
-	// decoder; receivers are at the newest name only: types_proto.go).
+	// decoder; receivers are at the newest name only: types_proto.go), or
+	// "marker" (types that implement ErrorKeyMarker: types_marker.go).
 	Lineage string `json:"lineage,omitempty"`
 	// Kind: "leaf" (a T leaf), "wrapper" (a T wrapper over a stdlib
 	// errors.New leaf), "wrapped-leaf" (a T leaf under the library wrapper
 	// errors.Wrap), "both" (a T wrapper over a T leaf), "multi" (a T
-	// multi-cause error over a stdlib leaf and a T leaf).
+	// multi-cause error over a stdlib leaf and a T leaf), "mid-wrapper" (the
+	// library wrapper errors.WithMessage over a T wrapper over a stdlib
+	// leaf: the renamed wrapper is the middle layer of three).
 	Kind    string `json:"kind,omitempty"`
 	Proc    *Proc  `json:"proc,omitempty"`
 	Sender  *Proc  `json:"sender,omitempty"`
@@ -91,6 +97,12 @@ func (c *Config) String() string {
 		b.WriteString(" " + c.Proc.String())
 	case "transfer":
 		route(c.Sender, c.Mids)
+		b.WriteString(" -> " + c.Recv.String())
+	case "mark":
+		b.WriteString(" " + c.Sender.String())
+		for _, m := range c.Mids {
+			b.WriteString(" -> errors.Mark taken at " + m.String())
+		}
 		b.WriteString(" -> " + c.Recv.String())
 	case "routes":
 		b.WriteString(" {")
@@ -172,17 +184,24 @@ func (c *Config) valid() bool {
 	for _, k := range l.kinds {
 		kindOK = kindOK || k == c.Kind
 	}
+	// the middle-layer kind is explored for the lineages with wrapper
+	// decoders of the usual kind
+	kindOK = kindOK || (c.Kind == kindMid && !l.protoNative)
 	if l.protoNative && c.Phase != "process" && !(ok(c.Recv) && c.Recv.atNewest(l)) {
 		// the only faithful receivers of the proto-native lineage
 		return false
 	}
+	// a process without decoders is never a sender
+	sends := func(p *Proc) bool { return ok(p) && p.decodes() }
 	switch c.Phase {
 	case "process":
 		return ok(c.Proc)
 	case "transfer":
-		return ok(c.Sender) && c.Sender.knows() && ok(c.Recv) && kindOK
+		return sends(c.Sender) && ok(c.Recv) && kindOK
+	case "mark":
+		return sends(c.Sender) && len(c.Mids) == 1 && ok(c.Recv) && kindOK && !l.protoNative
 	case "routes":
-		return ok(c.Sender) && c.Sender.knows() && ok(c.Sender2) && c.Sender2.knows() && ok(c.Recv) && kindOK
+		return sends(c.Sender) && sends(c.Sender2) && ok(c.Recv) && kindOK
 	}
 	return false
 }
@@ -197,7 +216,7 @@ const (
 // version v: this is also the "local instance" a receiver compares with.
 func buildT(kind string, v *version, msg string) error {
 	switch kind {
-	case "wrapper":
+	case "wrapper", kindMid:
 		return v.newWrap(msg, codeA, goerrors.New("root"))
 	case "both":
 		return v.newWrap(msg, codeA, v.newLeaf("inner "+msg, codeA))
@@ -209,33 +228,49 @@ func buildT(kind string, v *version, msg string) error {
 
 func buildFull(kind string, v *version, msg string) error {
 	e := buildT(kind, v, msg)
-	if kind == "wrapped-leaf" {
+	switch kind {
+	case "wrapped-leaf":
 		e = errors.Wrap(e, "ctx")
+	case kindMid:
+		e = errors.WithMessage(e, "outer")
 	}
 	return e
 }
+
+// kindMid: the renamed wrapper is the middle layer of three.
+const kindMid = "mid-wrapper"
 
 // spot is one T layer of an error of a given kind: where it is in the error
 // and in the flattened list of wire layers, and which type of the version
 // it is.
 type spot struct {
-	where string // outermost | innermost | cause[1]
+	where string // outermost | middle | innermost | cause[1]
 	role  string // leaf | wrap | multi
-	last  bool   // wire position: first layer (false) or last layer (true)
+	idx   int    // wire position in the flattened layers: 0 first, 1 second, -1 last
+}
+
+// at is the index of the spot in a list of n wire layers.
+func (s spot) at(n int) int {
+	if s.idx < 0 {
+		return n + s.idx
+	}
+	return s.idx
 }
 
 func spots(kind string) []spot {
 	switch kind {
 	case "leaf":
-		return []spot{{"outermost", "leaf", false}}
+		return []spot{{"outermost", "leaf", 0}}
 	case "wrapper":
-		return []spot{{"outermost", "wrap", false}}
+		return []spot{{"outermost", "wrap", 0}}
+	case kindMid:
+		return []spot{{"middle", "wrap", 1}}
 	case "wrapped-leaf":
-		return []spot{{"innermost", "leaf", true}}
+		return []spot{{"innermost", "leaf", -1}}
 	case "both":
-		return []spot{{"outermost", "wrap", false}, {"innermost", "leaf", true}}
+		return []spot{{"outermost", "wrap", 0}, {"innermost", "leaf", -1}}
 	case "multi":
-		return []spot{{"outermost", "multi", false}, {"cause[1]", "leaf", true}}
+		return []spot{{"outermost", "multi", 0}, {"cause[1]", "leaf", -1}}
 	}
 	return nil
 }
@@ -254,6 +289,11 @@ type seen struct {
 	typ     string
 	code    string
 	hasCode bool
+	// marker lineage: the ErrorKeyMarker of the layer if it has one, and the
+	// extension of its type mark (also defined for opaque layers)
+	mark    string
+	hasMark bool
+	ext     string
 }
 
 // layerAt is the layer of e at the spot.
@@ -261,6 +301,8 @@ func layerAt(s spot, e error) error {
 	switch s.where {
 	case "outermost":
 		return e
+	case "middle":
+		return errbase.UnwrapOnce(e)
 	case "innermost":
 		return errors.UnwrapAll(e)
 	case "cause[1]":
@@ -279,6 +321,13 @@ func observeSpots(kind string, e error) []seen {
 		if f, ok := at.(fielder); ok {
 			_, o.code = f.fields()
 			o.hasCode = true
+		}
+		if k, ok := at.(errbase.TypeKeyMarker); ok {
+			o.mark, o.hasMark = k.ErrorKeyMarker(), true
+		}
+		if o.hasMark || strings.HasPrefix(o.typ, "*errbase.opaque") {
+			// (only these can have an extension; the others are spared the call)
+			o.ext = errbase.GetTypeMark(at).Extension
 		}
 		out = append(out, o)
 	}
@@ -328,10 +377,7 @@ func families(ls []layer) []string {
 func payloads(kind string, ls []layer) []bool {
 	var out []bool
 	for _, s := range spots(kind) {
-		i := 0
-		if s.last {
-			i = len(ls) - 1
-		}
+		i := s.at(len(ls))
 		out = append(out, i >= 0 && i < len(ls) && ls[i].HasPayload)
 	}
 	return out
@@ -349,6 +395,7 @@ type ref struct {
 	wire      []byte // V0's encoding, message msgA
 	wireOther []byte // V0's encoding, message msgB
 	wireU     []byte // an error of the unrelated lineage U, message msgA
+	wireMarkB []byte // marker lineage: V0's encoding, message msgA, marker markB
 }
 
 var refs = map[string]*ref{}
@@ -457,6 +504,10 @@ func (x *run) send(s Proc, msg string, tag string) (a arrival) {
 	tk := map[string]string{}
 	var table string
 	var merr error
+	type agree struct {
+		where, key, fam, ext, wireFam, wireExt string
+	}
+	var agrees []agree
 	if !x.view(s, "encode", func() {
 		e := buildFull(kind, cur, msg)
 		a.text = e.Error()
@@ -466,6 +517,16 @@ func (x *run) send(s Proc, msg string, tag string) (a arrival) {
 		table = tableString()
 		enc := errors.EncodeError(context.Background(), e)
 		ls := layersOf(&enc)
+		if x.lin.marker {
+			for _, sp := range spots(kind) {
+				at, i := layerAt(sp, e), sp.at(len(ls))
+				if at == nil || i < 0 || i >= len(ls) {
+					continue
+				}
+				m := errbase.GetTypeMark(at)
+				agrees = append(agrees, agree{sp.where, string(errors.GetTypeKey(at)), m.FamilyName, m.Extension, ls[i].Family, ls[i].Ext})
+			}
+		}
 		a.fams, a.pay = families(ls), payloads(kind, ls)
 		a.wire, merr = proto.Marshal(&enc)
 	}) {
@@ -491,6 +552,13 @@ func (x *run) send(s Proc, msg string, tag string) (a arrival) {
 			"GetTypeKey(%s) under the view of %s is %s, want the original name %s; migration table: %s",
 			cn, s, short(tk[tp.role]), rn, table)
 	}
+	// marker lineage: GetTypeKey (family only), GetTypeMark and the encoded
+	// mark of an instance agree; the extension is the instance's marker
+	for _, g := range agrees {
+		x.check(g.key == g.wireFam && g.fam == g.wireFam && g.ext == g.wireExt && g.wireExt == markA, "mark-agree", s,
+			"at sender %s, the %s layer (marker %q): GetTypeKey = %s, GetTypeMark = %s::%s, but it is encoded under %s::%s",
+			s, g.where, markA, short(g.key), short(g.fam), g.ext, short(g.wireFam), g.wireExt)
+	}
 	x.checkPayloadOnWire(s, "sender", a.pay)
 	return a
 }
@@ -501,9 +569,20 @@ func (x *run) send(s Proc, msg string, tag string) (a arrival) {
 func (x *run) checkDecoded(p Proc, role string, got []seen, gotText string, a arrival) {
 	kind := x.cfg.Kind
 	for i, s := range spots(kind) {
-		if !p.knows() {
+		if x.lin.marker {
+			// the extension of the layer's type mark is the sender's marker,
+			// decoded or opaque
+			x.check(got[i].ext == markA, "marker", p,
+				"%s %s: the type mark of the %s layer of the decoded error (a %s) has the extension %q, the sender's instance had the marker %q",
+				role, p, s.where, got[i].typ, got[i].ext, markA)
+		}
+		if !p.decodes() {
+			who := "unknowing"
+			if p.NoDec {
+				who = "decoder-less"
+			}
 			x.check(strings.HasPrefix(got[i].typ, "*errbase.opaque"), "decode-type", p,
-				"the unknowing %s decodes the %s layer to a %s, want an opaque type", role, s.where, got[i].typ)
+				"the %s %s %s decodes the %s layer to a %s, want an opaque type", who, role, p, s.where, got[i].typ)
 			continue
 		}
 		if s.role == "leaf" && p.payloadOpaque(x.lin) {
@@ -516,6 +595,11 @@ func (x *run) checkDecoded(p Proc, role string, got []seen, gotText string, a ar
 		x.check(got[i].typ == want, "decode-type", p,
 			"%s %s decodes the %s layer of the error (arriving under the family names %v, payloads %v) to a %s; it must decode it to its own type %s",
 			role, p, s.where, a.fams, a.pay, got[i].typ, want)
+		if x.lin.marker && got[i].typ == want {
+			x.check(got[i].hasMark && got[i].mark == markA, "marker", p,
+				"%s %s: ErrorKeyMarker() of the %s layer is %q after the transfer, the sender's instance had %q",
+				role, p, s.where, got[i].mark, markA)
+		}
 		if (x.cfg.Enc || (x.lin.protoNative && s.role == "leaf")) && got[i].typ == want {
 			x.check(got[i].hasCode && got[i].code == codeA, "payload", p,
 				"%s %s: the field carried by the payload of the %s layer is %q after the transfer, the sender had %q",
@@ -651,6 +735,13 @@ func runTransfer(cfg *Config) *run {
 			add("Is(received, local instance of "+r.Ver+" with the same message)", "is-local", true, e, buildT(kind, cur, msgA))
 			add("Is(received, local instance of "+r.Ver+" with another message)", "is-othermsg", false, e, buildT(kind, cur, msgB))
 			add("Is(received, local instance of the unrelated lineage U with the same message)", "is-unrelated", false, e, buildT(kind, chainU[1], msgA))
+			if x.lin.marker {
+				// Is(received, local) iff the markers are equal
+				other := buildT(kind, cur.marked(markB), msgA)
+				add("Is(received, local instance of "+r.Ver+" with the same message and another marker)", "is-othermarker", false, e, other)
+				add("Is(local instance of "+r.Ver+" with the same message and another marker, received)", "is-othermarker", false, buildFull(kind, cur.marked(markB), msgA), e)
+				add("Is(local instance of "+r.Ver+" with the same message and marker, received)", "is-local", true, buildFull(kind, cur, msgA), e)
+			}
 			if x.lin.protoNative {
 				// the other direction: the local error (built like the
 				// sender's, library wrapper included) against the received one
@@ -684,6 +775,14 @@ func runTransfer(cfg *Config) *run {
 		add("Is(received, error with another message sent by V0)", "is-othermsg", false, e, d1)
 		add("Is(received, error of the unrelated lineage U)", "is-unrelated", false, e, du)
 		add("Is(error of the unrelated lineage U, received)", "is-unrelated", false, du, e)
+		if x.lin.marker {
+			dk, err3 := decodeWire(rf.wireMarkB)
+			if err3 != nil {
+				return lk, fmt.Errorf("reference wire: %v", err3)
+			}
+			add("Is(received, error with another marker sent by V0)", "is-othermarker", false, e, dk)
+			add("Is(error with another marker sent by V0, received)", "is-othermarker", false, dk, e)
+		}
 		return lk, nil
 	}
 	if !x.view(r, "decode", func() {
@@ -752,6 +851,125 @@ func runTransfer(cfg *Config) *run {
 		judge(second, a2, " (second transfer)")
 		x.prefix = ""
 	}
+	return x
+}
+
+// markedMsg is the message of the error that the marking process marks.
+const markedMsg = "failure at the marking process"
+
+// runMark: the sender's error arrives at the marking process (typically one
+// at which the renamed types are opaque); that process takes
+// errors.Mark(new error, received) and sends it on; the receiver compares
+// what it gets with its local instance. The mark carries the type marks the
+// marking process computed for the layers of what it received.
+func runMark(cfg *Config) *run {
+	x := newRun(cfg)
+	kind, m, r := cfg.Kind, cfg.Mids[0], *cfg.Recv
+	a := x.send(*cfg.Sender, msgA, "")
+	if x.broken {
+		return x
+	}
+	rf := cfg.ref()
+	// refsAt: the comparisons of a marked error d at process p
+	refsAt := func(p Proc, d error, clause string, is *[]isObs) error {
+		add := func(name, cl string, want bool, a, b error) {
+			got, pv := isG(a, b)
+			*is = append(*is, isObs{name, want, got, pv, cl})
+		}
+		if p.knows() {
+			cur := p.cur(x.lin)
+			local := buildFull(kind, cur, msgA)
+			add("Is(marked error, local instance of "+p.Ver+" with the same message)", clause, true, d, local)
+			add("Is(local instance of "+p.Ver+" with the same message, marked error)", clause, true, local, d)
+			add("Is(marked error, local instance of "+p.Ver+" with another message)", clause+"-othermsg", false, d, buildFull(kind, cur, msgB))
+			add("Is(marked error, local instance of the unrelated lineage U)", clause+"-unrelated", false, d, buildFull(kind, chainU[1], msgA))
+			if x.lin.marker {
+				add("Is(marked error, local instance of "+p.Ver+" with another marker)", clause+"-othermarker", false, d, buildFull(kind, cur.marked(markB), msgA))
+			}
+			return nil
+		}
+		d0, err0 := decodeWire(rf.wire)
+		d1, err1 := decodeWire(rf.wireOther)
+		du, err2 := decodeWire(rf.wireU)
+		if err0 != nil || err1 != nil || err2 != nil {
+			return fmt.Errorf("reference wire: %v %v %v", err0, err1, err2)
+		}
+		add("Is(marked error, error sent directly by V0)", clause, true, d, d0)
+		add("Is(error sent directly by V0, marked error)", clause, true, d0, d)
+		add("Is(marked error, error with another message sent by V0)", clause+"-othermsg", false, d, d1)
+		add("Is(marked error, error of the unrelated lineage U)", clause+"-unrelated", false, d, du)
+		if x.lin.marker {
+			dk, err3 := decodeWire(rf.wireMarkB)
+			if err3 != nil {
+				return err3
+			}
+			add("Is(marked error, error with another marker sent by V0)", clause+"-othermarker", false, d, dk)
+		}
+		return nil
+	}
+	judge := func(p Proc, is []isObs, tag string) {
+		for _, o := range is {
+			x.obs[o.name+tag] = o.got
+			if o.pv != nil {
+				x.evals++
+				x.fail("panic-is", p, "%s panics at %s: %v", o.name, p, o.pv)
+				continue
+			}
+			x.check(o.got == o.want, o.clause, p, "at %s: %s = %v, want %v (the mark was taken at %s of the error that arrived under the family names %v)",
+				p, o.name, o.got, o.want, m, a.fams)
+		}
+	}
+	var got []seen
+	var gotText string
+	var uerr, merr error
+	var isM []isObs
+	var wire []byte
+	if !x.view(m, "mark", func() {
+		var e error
+		if e, uerr = decodeWire(a.wire); uerr != nil {
+			return
+		}
+		got = observeSpots(kind, e)
+		gotText = e.Error()
+		mk := errors.Mark(goerrors.New(markedMsg), e)
+		if uerr = refsAt(m, mk, "mark-taken", &isM); uerr != nil {
+			return
+		}
+		enc := errors.EncodeError(context.Background(), mk)
+		wire, merr = proto.Marshal(&enc)
+	}) {
+		return x
+	}
+	x.steps += 2
+	if uerr != nil || merr != nil {
+		x.broken = true
+		x.fail("marshal", m, "protobuf round trip at %s fails: %v %v", m, uerr, merr)
+		return x
+	}
+	x.checkDecoded(m, "marking process", got, gotText, a)
+	judge(m, isM, " (at the marking process)")
+	var typ, text string
+	var isR []isObs
+	if !x.view(r, "decode", func() {
+		var d error
+		if d, uerr = decodeWire(wire); uerr != nil {
+			return
+		}
+		typ, text = fmt.Sprintf("%T", d), d.Error()
+		uerr = refsAt(r, d, "mark-forwarded", &isR)
+	}) {
+		return x
+	}
+	x.steps++
+	if uerr != nil {
+		x.broken = true
+		x.fail("marshal", r, "proto.Unmarshal at %s fails: %v", r, uerr)
+		return x
+	}
+	x.obs["received_type"] = typ
+	x.check(typ == "*markers.withMark" && text == markedMsg, "mark-decode", r,
+		"receiver %s decodes the marked error to a %s with Error() = %q, want *markers.withMark and %q", r, typ, text, markedMsg)
+	judge(r, isR, "")
 	return x
 }
 
@@ -916,7 +1134,7 @@ func setupRefs(r *core.Result) bool {
 	}
 	v0 := Proc{Ver: "V0"}
 	for _, l := range lineages {
-		for _, kind := range l.kinds {
+		for _, kind := range l.allKinds() {
 			rf := &ref{}
 			var err error
 			pv, _ := inView(v0, opts{lin: l}, func() {
@@ -936,12 +1154,16 @@ func setupRefs(r *core.Result) bool {
 				rf.wireU = enc(buildFull(kind, chainU[1], msgA))
 				// the model, not V0's behaviour, says what the T layers are
 				// keyed as: "<pkgpath>/<reflect name of the first name>"
+				// (marker lineage: "::" and the marker of the instance)
 				for _, s := range spots(kind) {
-					i := 0
-					if s.last {
-						i = len(ls) - 1
-					}
+					i := s.at(len(ls))
 					rf.fams[i] = short(modelKey(l.chain[0].typeOf(s.role).String()))
+					if l.marker {
+						rf.fams[i] += "::" + markA
+					}
+				}
+				if l.marker {
+					rf.wireMarkB = enc(buildFull(kind, l.chain[0].marked(markB), msgA))
 				}
 			})
 			if pv != nil || err != nil {
@@ -958,6 +1180,8 @@ func lineageSuffix(name string) string {
 	switch {
 	case name == protoNativeName:
 		return "|proto-native"
+	case name == markerName:
+		return "|marker"
 	case name != "":
 		return "|generic"
 	}
@@ -968,7 +1192,7 @@ func runC17(c *core.Ctx, r *core.Result) {
 	if c.Shard != 0 {
 		return
 	}
-	r.Rule = "state = one configuration (phase, lineage, kind, process spec of sender / intermediaries / receiver incl. registration order and observation points, encoders, position of the unrelated migration); transition = one encode or decode step under a process view; non-trivial = sender and receiver run different versions; outcome class = lineage kind | longest chain n | first failing clause"
+	r.Rule = "state = one configuration (phase, lineage, kind, process spec of sender / intermediaries / receiver incl. registration order and observation points, encoders, position of the unrelated migration); transition = one encode or decode step under a process view; non-trivial = sender and receiver run different versions; outcome class = lineage kind | longest chain n | first failing clause; phase mark = sender -> process that takes errors.Mark of what it received -> receiver"
 	r.Assumptions = []string{
 		"one name of a type = one distinct Go type of package vermc (a Go type cannot be renamed at run time)",
 		"a process = pristine registries + that process's registrations, installed around each encode/decode step with the errbase snapshot hooks (build overlay)",
@@ -977,6 +1201,9 @@ func runC17(c *core.Ctx, r *core.Result) {
 		"proto-native leaf lineage (PNativeV0 -> PNativeV1 -> PNativeV2, PNativeAlt: one protobuf message name, no leaf encoder/decoder, the error is its own payload): the gogo protobuf type registry is global to this OS process and cannot be snapshotted (proto.RegisterType ignores a second registration of a message name; nothing unregisters), so every simulated process that unmarshals the payload gets the ONE registered Go type, the newest name PNativeV2. Explored: receivers at V2 only (both registration orders, single-call declaration, every subset of observation points) from every sender version (V0, V1, V2, Alt; encoding needs only XXX_MessageName), directly and through one or two intermediaries. NOT explorable: receivers (final or intermediary) at V0, V1 or Alt that unmarshal the payload into their own *PNativeV0 / *PNativeV1 / *PNativeAlt (new -> old, B -> A): that needs a per-process protobuf registry",
 		"proto-native leaf lineage: at every intermediary other than V2 (unknowing, V0, V1, Alt) the payload is opaque, i.e. that binary does not have the message type in its protobuf registry (never knew it, or has the hand-written type with XXX_MessageName but did not proto.RegisterType it: it can send but not unmarshal). Simulated by rewriting the payload's type URL to a message name that is registered nowhere before that process decodes and back after it re-encodes; sound because the library hands the Any only to types.UnmarshalAny / forwards it untouched. The model there: an opaqueLeaf that is forwarded with the same family name and the same payload",
 		"proto-native leaf lineage, extra receiver clauses: Is in both directions against a locally built instance, GetTypeKey(received layer) == GetTypeKey(local layer), and a second transfer from the receiver to a process like itself (clauses prefixed second-transfer:) preserves wire family names, decoded type, fields, Is and type key",
+		"marker lineage (KLeafV0 -> KLeafV1 -> KLeafV2, KWrap..., KLeafAlt / KWrapAlt): renamed types that implement ErrorKeyMarker with a per-instance string. The library hands the marker to no decoder, so the types carry it the way domains.withDomain does: as a safe detail (default encoding) or in the payload (custom encoders). Model: on the wire the family name is the ORIGINAL name and the extension is the marker, at every version and hop; GetTypeKey, GetTypeMark and the encoded mark of an instance agree (clause mark-agree); the decoded (or opaque) layer has the sender's marker (clause marker); Is(received, local) is true iff the markers are equal (clause is-othermarker)",
+		"a decoder-less process ({no decoders}) declares its version's migrations but registers no decoder/encoder for the lineage: every layer of the lineage it receives stays opaque, the errors it builds locally have its own types; Is between the two must hold through the type marks. It is an intermediary, a marking process or a receiver, never a sender",
+		"phase mark: the one intermediary takes errors.Mark(a new error, the error it received) and sends that on; the comparisons (clauses mark-taken at the marking process, mark-forwarded at the receiver) are against the full local instance in both directions (at an unknowing process: against V0's directly sent error)",
 		"each configuration reports its first diverging clause, attributed to the process where model and observation diverge; later failing clauses of the same configuration are listed in the message and counted under counters consequent:<clause>",
 	}
 	if !setupRefs(r) {
@@ -1050,8 +1277,10 @@ func enumerate(c *core.Ctx, r *core.Result, l *lineage, samples *sampler, stop f
 			uposs = append(uposs, i)
 		}
 	}
+	// kinds: what transfers / routes / marks iterate over
+	kinds := l.kinds
 	transfers := func(senders []Proc, midSets [][]Proc, recvs []Proc, encs []bool, ups []int) {
-		for _, kind := range l.kinds {
+		for _, kind := range kinds {
 			for si := range senders {
 				if stop() {
 					return
@@ -1069,7 +1298,7 @@ func enumerate(c *core.Ctx, r *core.Result, l *lineage, samples *sampler, stop f
 		}
 	}
 	routes := func(recvs []Proc, midSets [][]Proc, os []opts) {
-		for _, kind := range l.kinds {
+		for _, kind := range kinds {
 			for s1 := range procs {
 				if stop() {
 					return
@@ -1079,6 +1308,25 @@ func enumerate(c *core.Ctx, r *core.Result, l *lineage, samples *sampler, stop f
 						for ri := range recvs {
 							for _, o := range os {
 								execute(r, &Config{Phase: "routes", Lineage: l.name, Kind: kind, Sender: &procs[s1], Sender2: &procs[s2], Mids2: mids2, Recv: &recvs[ri], Enc: o.Enc, UPos: o.UPos}, samples)
+							}
+						}
+					}
+				}
+			}
+		}
+	}
+
+	marks := func(senders, markers, recvs []Proc, encs []bool, ups []int) {
+		for _, kind := range kinds {
+			for si := range senders {
+				if stop() {
+					return
+				}
+				for mi := range markers {
+					for ri := range recvs {
+						for _, enc := range encs {
+							for _, up := range ups {
+								execute(r, &Config{Phase: "mark", Lineage: l.name, Kind: kind, Sender: &senders[si], Mids: markers[mi : mi+1], Recv: &recvs[ri], Enc: enc, UPos: up}, samples)
 							}
 						}
 					}
@@ -1102,6 +1350,7 @@ func enumerate(c *core.Ctx, r *core.Result, l *lineage, samples *sampler, stop f
 	}
 	head := fmt.Sprintf("lineage %s: rename chains of length n<=%d (all n! registration orders + single-call declaration%s = %d knowing process specs, + an unknowing process; every subset of the observation points of a start-up history = %d more specs); kinds %v; encoders{off,on: payload-carrying} x unrelated-migration position %v.",
 		name, maxN, map[bool]string{true: " + a differently renamed version", false: ""}[l.alt != nil], len(procs), len(observing), l.kinds, uposs)
+	var desc string
 	switch {
 	case l.protoNative:
 		// receivers: the processes at the newest name only (types_proto.go)
@@ -1127,13 +1376,13 @@ func enumerate(c *core.Ctx, r *core.Result, l *lineage, samples *sampler, stop f
 		routes(routeRecvs, join(none, singles), []opts{{Enc: false, UPos: 0}, {Enc: true, UPos: 0}, {Enc: false, UPos: maxN}, {Enc: true, UPos: 1}})
 		return head + fmt.Sprintf(" The leaf is a proto.Message without decoder; only the newest name is in the (OS-process-global) protobuf registry, so RECEIVERS ARE AT V2 ONLY (%d plain specs, %d with observing ones) and the payload is opaque at every other intermediary (unknowing, V0, V1, Alt). process: every spec. transfer: every sender (plain or observing, %d: V0, V1, V2, Alt) x {no intermediary, each of %d plain} x every receiver at V2; every plain sender x every pair of plain intermediaries (%d) x plain receiver at V2; plain sender x observing intermediary x plain receiver at V2; each followed by a second transfer from the receiver. routes: every unordered pair of plain senders, second route via {none, each of %d}, x %s, 4 option combinations. Not explored: receivers at V0 / V1 / Alt that unmarshal the payload",
 			len(recvNew), len(recvNewAll), len(sendAll), len(others), len(pairs), len(others), routeNote)
-	case l.name != "" || c.Thorough():
+	case (l.name != "" && !l.marker) || c.Thorough():
 		// small lineages, and the thorough tier: the full product
 		transfers(sendAll, join(none, singles), recvAll, bools, uposs)
 		transfers(procs, pairs, others, bools, uposs)
 		transfers(procs, observingMids, others, bools, uposs)
 		routes(recvAll, join(none, singles), []opts{{Enc: false, UPos: 0}, {Enc: true, UPos: 0}, {Enc: false, UPos: maxN}, {Enc: true, UPos: 1}})
-		return head + fmt.Sprintf(" process: every spec. transfer: every sender (plain or observing, %d) x {no intermediary, each of %d plain} x every receiver (plain or observing, %d); every plain sender x every pair of plain intermediaries (%d) x plain receiver; plain sender x observing intermediary x plain receiver. routes: every unordered pair of plain senders, second route via {none, each of %d}, x every receiver, 4 option combinations",
+		desc = head + fmt.Sprintf(" process: every spec. transfer: every sender (plain or observing, %d) x {no intermediary, each of %d plain} x every receiver (plain or observing, %d); every plain sender x every pair of plain intermediaries (%d) x plain receiver; plain sender x observing intermediary x plain receiver. routes: every unordered pair of plain senders, second route via {none, each of %d}, x every receiver, 4 option combinations",
 			len(sendAll), len(others), len(recvAll), len(pairs), len(others))
 	default:
 		short3 := [][]Proc{nil, {{Ver: "V0"}}, {{Ver: unknowing}}}
@@ -1143,9 +1392,55 @@ func enumerate(c *core.Ctx, r *core.Result, l *lineage, samples *sampler, stop f
 		transfers(observing, none, observing, bools[:1], uposs[:1])
 		transfers(procs, observingMids, others, bools[:1], uposs[:1])
 		routes(others, none, []opts{{Enc: false, UPos: 0}, {Enc: true, UPos: 0}})
-		return head + fmt.Sprintf(" process: every spec. transfer without observations: every sender x {no intermediary, each of %d} x receiver (%d). transfer with an observing sender (every subset) x {no intermediary, V0, unknowing} x every plain receiver; the same with an observing receiver and every plain sender; observing sender x observing receiver (direct, encoders off, position 0); plain sender x observing intermediary x plain receiver (encoders off, position 0). routes: every unordered pair of plain senders x plain receiver (position 0)",
+		desc = head + fmt.Sprintf(" process: every spec. transfer without observations: every sender x {no intermediary, each of %d} x receiver (%d). transfer with an observing sender (every subset) x {no intermediary, V0, unknowing} x every plain receiver; the same with an observing receiver and every plain sender; observing sender x observing receiver (direct, encoders off, position 0); plain sender x observing intermediary x plain receiver (encoders off, position 0). routes: every unordered pair of plain senders x plain receiver (position 0)",
 			len(others), len(others))
 	}
+
+	// ---- opaque renamed wrappers, decoder-less processes, the renamed
+	// wrapper as the middle layer, marks taken where the types are opaque ----
+	nodecAll := withoutDecoders(procs)
+	nodecSome := nodecAll
+	markers := append(append([]Proc{}, others...), nodecAll...)
+	extraUps := uposs
+	how := "every knowing spec without decoders"
+	if !c.Thorough() {
+		// V0, V1, the differently renamed code, and the longest chain
+		// declared oldest-first / newest-first
+		nodecSome = nil
+		for _, p := range nodecAll {
+			whole := p.n() == maxN && !p.Direct
+			chrono := strings.HasSuffix(p.baseKey(), "chronological") || strings.HasSuffix(p.baseKey(), "newest-first") || strings.HasSuffix(p.baseKey(), "single")
+			if p.Ver == "V0" || p.Ver == "V1" || p.Ver == "Alt" || (whole && chrono) {
+				nodecSome = append(nodecSome, p)
+			}
+		}
+		markers = append([]Proc{{Ver: unknowing}, {Ver: "V0"}}, nodecSome...)
+		extraUps = uposs[:1]
+		how = fmt.Sprintf("%d of them (V0, V1, differently renamed, longest chain oldest-first / newest-first)", len(nodecSome))
+	}
+	asMids := func(ps []Proc) [][]Proc {
+		var out [][]Proc
+		for _, p := range ps {
+			out = append(out, []Proc{p})
+		}
+		return out
+	}
+	opaqueRecvs := append(append([]Proc{}, others...), nodecSome...)
+	twoOpts := []opts{{Enc: false, UPos: 0}, {Enc: true, UPos: 0}}
+	// decoder-less receivers and intermediaries, every kind
+	transfers(procs, none, nodecAll, bools, extraUps)
+	transfers(procs, asMids(nodecSome), others, bools, extraUps)
+	routes(nodecSome, none, twoOpts)
+	// marks taken at a process and forwarded, every kind + the middle layer
+	kinds = l.allKinds()
+	marks(procs, markers, others, bools, extraUps)
+	// the renamed wrapper as the middle layer of three
+	kinds = []string{kindMid}
+	transfers(procs, join(none, singles, asMids(nodecSome)), opaqueRecvs, bools, extraUps)
+	routes(opaqueRecvs, none, twoOpts)
+	kinds = l.kinds
+	return desc + fmt.Sprintf(". Decoder-less processes (migrations declared, no decoder for the lineage: what arrives stays opaque, local instances have the process's own types; %d specs): every sender x every decoder-less receiver; every sender x decoder-less intermediary (%s) x every plain receiver; routes to decoder-less receivers. mark: every sender x marking process (errors.Mark(new error, received) taken there and sent on; %d specs: unknowing, V0, decoder-less%s) x every plain receiver, kinds %v. kind %s (errors.WithMessage over the renamed wrapper over a leaf): every sender x {no intermediary, each of %d plain, decoder-less} x every plain or decoder-less receiver; routes: every unordered pair of senders x those receivers. Encoders {off,on} x unrelated-migration position %v",
+		len(nodecAll), how, len(markers), map[bool]string{true: ", every plain spec", false: ""}[c.Thorough()], l.allKinds(), kindMid, len(others), extraUps)
 }
 
 func runConfig(cfg *Config) *run {
@@ -1154,6 +1449,8 @@ func runConfig(cfg *Config) *run {
 		return runProcess(cfg)
 	case "transfer":
 		return runTransfer(cfg)
+	case "mark":
+		return runMark(cfg)
 	}
 	return runRoutes(cfg)
 }
@@ -1210,6 +1507,12 @@ func execute(r *core.Result, cfg *Config, samples *sampler) {
 			needsPayload = variant(runConfig(&d), "without custom encoders", "|payload",
 				"the failure needs types that cross the wire in the payload of a custom encoder registered under GetTypeKey")
 		}
+		if cfg.Kind == kindMid {
+			d := *cfg
+			d.Kind = "wrapper"
+			variant(runConfig(&d), "with the renamed wrapper as the outermost layer (kind wrapper)", "|middle-layer",
+				"the failure needs the renamed wrapper to be the middle layer of three")
+		}
 		if cfg.Lineage != "" {
 			key += lineageSuffix(cfg.Lineage)
 			msg += "\nlineage " + cfg.Lineage + ": the type names are " + cfg.lin().chain[0].leafName() + " etc."
@@ -1256,8 +1559,19 @@ func execute(r *core.Result, cfg *Config, samples *sampler) {
 		if cfg.Phase != "process" {
 			r.Count("proto-native:"+protoNativePath(cfg), 1)
 		}
+	case cfg.Lineage == markerName:
+		r.Count("configurations-of-the-marker-lineage", 1)
 	case cfg.Lineage != "":
 		r.Count("configurations-of-generic-lineages", 1)
+	}
+	if cfg.Kind == kindMid {
+		r.Count("configurations-with-the-renamed-wrapper-in-the-middle-of-three-layers", 1)
+	}
+	for _, p := range cfg.procs() {
+		if p.NoDec {
+			r.Count("configurations-with-a-decoder-less-process", 1)
+			break
+		}
 	}
 	if samples != nil {
 		samples.offer(r, cfg, x, verdict)
